@@ -36,7 +36,8 @@ ASSUMPTIONS = [
     'inverse laws are claimed where the value attribute does not hold a '
     'mapping (the property\'s proviso) and, for the index pair, where the '
     'inner key value equals the outer key (that is what an index is)',
-    'dash/underscore laws: <= 3 keys, each a free string of length <= 3',
+    'dash/underscore laws: <= 2 keys, free strings of length <= 3 / <= 2, '
+    'plus an optional complex key',
 ]
 
 
@@ -133,10 +134,10 @@ def ref_seq_to_map(v, key, val, strict):
     if a[0] != 'q':
         return v
     items = a[2]
-    if any(it[0] != 'm' for it in items):
-        return v                         # not a sequence of mappings
     seen = []
     for it in items:
+        if it[0] != 'm':
+            continue
         hits = [e for e in it[2] if _key_of(e) == key]
         if len(hits) != 1:
             return OUTSIDE
@@ -144,6 +145,8 @@ def ref_seq_to_map(v, key, val, strict):
         if kv[0] != 's' or kv[1] != T_STR:
             return OUTSIDE
         seen.append(kv[2])
+    if any(it[0] != 'm' for it in items):
+        return v                         # not a sequence of mappings
     if len(set(seen)) != len(seen):
         return RAISES if strict else v
     out = []
@@ -375,20 +378,23 @@ def inverse_reach(pair: int, n: int, k1: int, k2: int, useval: bool) -> bool:
 
 
 # ---------------------------------------------------- dashes / underscores
-def _keys_node(keys):
-    return yatiml.Node(mapping([(scalar(T_STR, k), scalar(T_INT, str(i)))
-                                for i, k in enumerate(keys)]))
+def _keys_node(keys, complex_key=False):
+    ents = [(scalar(T_STR, k), scalar(T_INT, str(i)))
+            for i, k in enumerate(keys)]
+    if complex_key:
+        ents.append((seq([scalar(T_STR, 'a_b-c')]), scalar(T_INT, '9')))
+    return yatiml.Node(mapping(ents))
 
 
-def _dashes(n, k1, k2, k3, direction):
-    keys = [k1, k2, k3][:n]
-    node = _keys_node(keys)
+def _dashes(n, k1, k2, cx, direction):
+    keys = [k1, k2][:n]
+    node = _keys_node(keys, cx)
     if direction == 0:
         # keys free of '-': unders_to_dashes then dashes_to_unders restores
         if any('-' in k for k in keys):
             return True
         node.unders_to_dashes_in_keys()
-        mid = [k.value for k, _ in node.yaml_node.value]
+        mid = [k.value for k, _ in node.yaml_node.value][:n]
         if mid != [k.replace('_', '-') for k in keys]:
             return False
         if any('_' in k for k in mid):
@@ -398,35 +404,38 @@ def _dashes(n, k1, k2, k3, direction):
         if any('_' in k for k in keys):
             return True
         node.dashes_to_unders_in_keys()
-        mid = [k.value for k, _ in node.yaml_node.value]
+        mid = [k.value for k, _ in node.yaml_node.value][:n]
         if mid != [k.replace('-', '_') for k in keys]:
             return False
         if any('-' in k for k in mid):
             return False
         node.unders_to_dashes_in_keys()
-    after = [k.value for k, _ in node.yaml_node.value]
-    vals = [v.value for _, v in node.yaml_node.value]
+    after = [k.value for k, _ in node.yaml_node.value][:n]
+    vals = [v.value for _, v in node.yaml_node.value][:n]
     if not SYMBOLIC:
         note(keys=keys, middle=mid, after=after)
+    if cx and view(node.yaml_node.value[n][0]) != (
+            'q', T_SEQ, [('s', T_STR, 'a_b-c')]):
+        return False
     return after == keys and vals == [str(i) for i in range(n)]
 
 
-def dashes(n: int, k1: str, k2: str, k3: str, direction: int) -> bool:
+def dashes(n: int, k1: str, k2: str, cx: bool, direction: int) -> bool:
     """
-    pre: 0 <= n <= 3 and 0 <= direction < 2
-    pre: len(k1) <= 3 and len(k2) <= 3 and len(k3) <= 3
+    pre: 0 <= n <= 2 and 0 <= direction < 2
+    pre: len(k1) <= 3 and len(k2) <= 2
     post: __return__
     """
-    return _dashes(n, k1, k2, k3, direction)
+    return _dashes(n, k1, k2, cx, direction)
 
 
-def dashes_reach(n: int, k1: str, k2: str, k3: str, direction: int) -> bool:
+def dashes_reach(n: int, k1: str, k2: str, cx: bool, direction: int) -> bool:
     """
-    pre: 0 <= n <= 3 and 0 <= direction < 2
-    pre: len(k1) <= 3 and len(k2) <= 3 and len(k3) <= 3
+    pre: 0 <= n <= 2 and 0 <= direction < 2
+    pre: len(k1) <= 3 and len(k2) <= 2
     post: __return__
     """
-    ok = _dashes(n, k1, k2, k3, direction)
+    ok = _dashes(n, k1, k2, cx, direction)
     return not (ok and n == 2 and k1 == 'a_b' and direction == 0)
 
 
@@ -443,6 +452,7 @@ CONDITIONS = [
      'bound': 'both inverse pairs on 1..2 items with every subset of extra '
               'keys {v, w}, value attribute None/"v"'},
     {'fn': 'dashes', 'quick': 100, 'thorough': 300, 'twin': 'dashes_reach',
-     'bound': '<= 3 keys, each a FREE string of length <= 3, both '
+     'bound': '<= 2 keys, FREE strings of length <= 3 and <= 2, optionally a '
+              'complex (sequence) key that must be left alone, both '
               'directions'},
 ]
